@@ -45,7 +45,7 @@ fuzz_target!(|data: &[u8]| {
         let dir = format!("/verif/replays/{id}");
         let _ = std::fs::create_dir_all(&dir);
         let path = format!("{dir}/fuzz-{:016x}.json", vlab::tape::hash_str(&format!("{:?}", input)));
-        let body = serde_json::json!({"property": id, "signature": v.sig, "message": v.msg, "input": input.to_json(), "origin": "libfuzzer"});
+        let body = serde_json::json!({"property": id, "signature": v.sig, "message": v.msg, "input": input.to_json(), "origin": "libfuzzer", "zoo_seed": vlab::func::zoo2::ZOO2_SEED});
         let _ = std::fs::write(&path, serde_json::to_string_pretty(&body).unwrap());
         println!("VIOLATION property={id} replay={path}");
         println!("  signature: {}", v.sig);
